@@ -134,6 +134,164 @@ static void mutex_teardown(void)
     }
 }
 
+/* ------------------------------------------------------------------- cond */
+static ABT_cond C0;
+static ABT_mutex CM0, CM1;
+static int c_tokens, c_holder, c_sigseq, c_sigdone, c_quota[MAX_ACTORS], c_role[MAX_ACTORS]; /* role 0 consumer 1 producer */
+static int c_to_produce, c_timeouts, c_okwaits, c_bound;
+
+#define CCALL(opname, extra, expr)                                             \
+    ({                                                                         \
+        vs_log("apiCall %s C0 %s", opname, extra);                             \
+        int rc__ = (expr);                                                     \
+        vs_note("apiRet %s C0 %d", opname, rc__);                              \
+        rc__;                                                                  \
+    })
+
+static void cm_lock(ABT_mutex m, int id)
+{
+    vs_log("apiCall lock CM%d", id);
+    ABT_OK(ABT_mutex_lock(m));
+    vs_note("apiRet lock CM%d 1", id);
+}
+static void cm_unlock(ABT_mutex m, int id)
+{
+    vs_log("apiCall unlock CM%d", id);
+    ABT_OK(ABT_mutex_unlock(m));
+    vs_note("apiRet unlock CM%d 1", id);
+}
+
+static void cond_body(actor *a)
+{
+    if (c_role[a->id] == 1) {
+        /* producer: change the predicate under the mutex, then signal or broadcast */
+        for (int r = 0; r < c_quota[a->id]; r++) {
+            cm_lock(CM0, 0);
+            VSA_CHECK(++c_holder == 1, "cond: mutex CM0 held by %d", c_holder);
+            c_tokens++;
+            c_holder--;
+            if (sc_rnd(2)) { /* signal while holding the mutex ... */
+                if (sc_rnd(3))
+                    { ABT_OK(CCALL("signal", "", (c_sigseq++, ABT_cond_signal(C0)))); c_sigdone++; }
+                else
+                    { ABT_OK(CCALL("broadcast", "", (c_sigseq++, ABT_cond_broadcast(C0)))); c_sigdone++; }
+                cm_unlock(CM0, 0);
+            } else { /* ... or after releasing it */
+                cm_unlock(CM0, 0);
+                if (sc_rnd(3))
+                    { ABT_OK(CCALL("signal", "", (c_sigseq++, ABT_cond_signal(C0)))); c_sigdone++; }
+                else
+                    { ABT_OK(CCALL("broadcast", "", (c_sigseq++, ABT_cond_broadcast(C0)))); c_sigdone++; }
+            }
+            if (sc_rnd(2))
+                relax(a);
+        }
+        return;
+    }
+    /* consumer */
+    if (c_bound && sc_rnd(4) == 0 && a->kind != AK_TASK) {
+        /* the condition variable is bound to CM0: waiting with CM1 must be rejected */
+        cm_lock(CM1, 1);
+        int rc = CCALL("wait", "CM1", ABT_cond_wait(C0, CM1));
+        VSA_CHECK(rc == ABT_ERR_INV_MUTEX, "cond wait with a wrong mutex returned %d", rc);
+        cm_unlock(CM1, 1);
+    }
+    for (int r = 0; r < c_quota[a->id]; r++) {
+        cm_lock(CM0, 0);
+        VSA_CHECK(++c_holder == 1, "cond: mutex CM0 held by %d", c_holder);
+        while (c_tokens == 0) {
+            int seq = c_sigdone; /* signals completed before this wait starts cannot be the ones that wake it */
+            c_holder--;
+            int timed = sc_rnd(2);
+            int rc;
+            if (!timed) {
+                rc = CCALL("wait", "CM0", ABT_cond_wait(C0, CM0));
+                VSA_CHECK(rc == ABT_SUCCESS, "cond wait returned %d", rc);
+            } else {
+                struct timespec ts;
+                clock_gettime(CLOCK_REALTIME, &ts);
+                long add = (long[]){ -1000, 0, 20000, 300000, 5000000 }[sc_rnd(5)]; /* ns: past, now, near, far */
+                ts.tv_nsec += add;
+                while (ts.tv_nsec < 0)
+                    ts.tv_nsec += 1000000000L, ts.tv_sec--;
+                while (ts.tv_nsec >= 1000000000L)
+                    ts.tv_nsec -= 1000000000L, ts.tv_sec++;
+                double dl = (double)ts.tv_sec + 1.0e-9 * (double)ts.tv_nsec;
+                char extra[64];
+                snprintf(extra, sizeof extra, "CM0 %.17g", dl);
+                rc = CCALL("timedwait", extra, ABT_cond_timedwait(C0, CM0, &ts));
+                VSA_CHECK(rc == ABT_SUCCESS || rc == ABT_ERR_COND_TIMEDOUT, "cond timedwait returned %d", rc);
+                if (rc == ABT_ERR_COND_TIMEDOUT) {
+                    c_timeouts++;
+                    VSA_CHECK(vs_now() >= dl, "timedwait reported a timeout %.9f s before its deadline", dl - vs_now());
+                }
+            }
+            VSA_CHECK(++c_holder == 1, "cond: wait returned without exclusive ownership of the mutex (%d holders)", c_holder);
+            if (rc == ABT_SUCCESS) {
+                c_okwaits++;
+                VSA_CHECK(c_sigseq > seq, "cond: wait returned SUCCESS although every signal/broadcast issued so far had completed before it started (spurious wake-up)");
+            }
+        }
+        c_tokens--;
+        c_holder--;
+        cm_unlock(CM0, 0);
+        if (sc_rnd(2))
+            relax(a);
+    }
+}
+
+static void cond_setup(int nact)
+{
+    ABT_OK(ABT_cond_create(&C0));
+    ABT_OK(ABT_mutex_create(&CM0));
+    ABT_OK(ABT_mutex_create(&CM1));
+    vs_name_ex(ABTI_cond_get_ptr(C0), sizeof(ABTI_cond), VS_SNAP, "C0");
+    vsa_watch_waitlist(ABTI_cond_get_ptr(C0), &ABTI_cond_get_ptr(C0)->waitlist);
+    vs_name(ABTI_mutex_get_ptr(CM0), sizeof(ABTI_mutex), "CM0");
+    vs_name(ABTI_mutex_get_ptr(CM1), sizeof(ABTI_mutex), "CM1");
+    /* roles: at least one producer and one consumer; tokens produced == tokens consumed */
+    int total = 0, nprod = 0;
+    for (int i = 0; i < nact; i++) {
+        c_role[i] = (i == 0) ? 1 : (i == 1 ? 0 : sc_rnd(3) == 0);
+        if (c_role[i] == 0) {
+            c_quota[i] = 1 + sc_rnd(rounds);
+            total += c_quota[i];
+        } else
+            nprod++;
+    }
+    for (int i = 0; i < nact; i++)
+        if (c_role[i] == 1)
+            c_quota[i] = 0;
+    for (int t = 0; t < total; t++) {
+        int k = sc_rnd(nprod), j = 0;
+        for (int i = 0; i < nact; i++)
+            if (c_role[i] == 1 && j++ == k)
+                c_quota[i]++;
+    }
+    c_to_produce = total;
+    /* bind the condition variable to CM0 (the first waiter's mutex is remembered for ever): a timed wait
+     * whose deadline has passed */
+    struct timespec ts;
+    clock_gettime(CLOCK_REALTIME, &ts);
+    ts.tv_sec -= 1;
+    char extra[64];
+    snprintf(extra, sizeof extra, "CM0 %.17g", (double)ts.tv_sec + 1.0e-9 * (double)ts.tv_nsec);
+    cm_lock(CM0, 0);
+    int rc = CCALL("timedwait", extra, ABT_cond_timedwait(C0, CM0, &ts));
+    VSA_CHECK(rc == ABT_ERR_COND_TIMEDOUT, "binding timedwait returned %d", rc);
+    cm_unlock(CM0, 0);
+    c_bound = 1;
+}
+static void cond_teardown(void)
+{
+    VSA_CHECK(c_tokens == 0 && c_holder == 0, "cond: %d tokens left, holder=%d", c_tokens, c_holder);
+    vs_note("cond stats okwaits=%d timeouts=%d", c_okwaits, c_timeouts);
+    vs_unname(ABTI_cond_get_ptr(C0));
+    ABT_OK(ABT_cond_free(&C0));
+    ABT_OK(ABT_mutex_free(&CM0));
+    ABT_OK(ABT_mutex_free(&CM1));
+}
+
 /* ------------------------------------------------------------------- main */
 int main(int argc, char **argv)
 {
@@ -160,6 +318,13 @@ int main(int argc, char **argv)
         mutex_setup();
         body = mutex_body;
         teardown = mutex_teardown;
+    } else if (!strcmp(family, "cond")) {
+        if (nact < 2)
+            nact = 2;
+        cond_setup(nact);
+        body = cond_body;
+        teardown = cond_teardown;
+        allow_task = 0;
     } else {
         fprintf(stderr, "unknown family %s\n", family);
         return 2;
